@@ -394,3 +394,61 @@ def run(ck, facts):
     import c04
     sub = C.SubCheck(ck, "R4", "", ["R2", "R3"], key_re=r"Type::lifetimes/carriers|recurses-into|extend_implicit")
     c04.run(sub, facts)
+    parse_rules(ck, "R3", "R4", facts)
+
+
+def _canon(n):
+    """structure of an expression without line numbers (for comparing two occurrences of `the same` expression)"""
+    if isinstance(n, dict):
+        return {k: _canon(v) for k, v in sorted(n.items()) if k not in ("ln", "id")}
+    if isinstance(n, list):
+        return [_canon(x) for x in n]
+    return n
+
+
+def parse_rules(ck, r_sibling, r_bounds, facts):
+    """Parser-level clauses shared with C09 (the macro builds the extern fn's generics from the same LifetimeEnv):
+    (a) every test for the type name `Option` in TypeName::from_syn looks at the same path segment, so `std` Option and DiplomatOption are told
+        apart by the segment that was recognised;  (b) LifetimeEnv::extend_generics feeds the `where` clause's lifetime predicates to the bounds,
+        unconditionally."""
+    import json
+    core = facts.core
+    f = core.fn("ast::types::TypeName::from_syn")
+    tests = []
+    for b_ in C.bodies_inl(core, C.fn_body(f), depth=1, exclude=[f["path"]]):
+        for n in C.walk(b_):
+            if n.get("k") == "bin" and n.get("op") in ("Eq", "Ne"):
+                for a_, o_ in ((n["l"], n["r"]), (n["r"], n["l"])):
+                    if C.strip(a_).get("k") == "lit" and C.strip(a_).get("v") == "Option":
+                        tests.append((json.dumps(_canon(C.strip(o_)), sort_keys=True), n.get("ln")))
+    kinds = sorted({t for t, _ in tests})
+    ck.expect(len(tests) >= 1 and len(kinds) == 1, r_sibling, "ast::TypeName::from_syn/Option-name-tests-agree", "%d tests of one path segment" % len(tests),
+              "the %d tests for the type name `Option` look at %d different expressions: a path recognised as Option through one segment is classified as std / Diplomat option through another "
+              "(`std::option::Option<T>` is taken for DiplomatOption<T> and passes the struct-field gate)" % (len(tests), len(kinds)), C.loc(f, tests[0][1] if tests else None))
+    eg = core.fn("ast::lifetimes::LifetimeEnv::extend_generics")
+    found = 0
+    for n, st in C.with_conditions_inl(core, C.fn_body(eg), depth=1):
+        if n.get("k") in ("mcall", "call") and (n.get("m") or (C.callee(n) or "").split("::")[-1]) == "extend_bounds":
+            args = n.get("a") or []
+            if not any(x.get("k") == "field" and x.get("n") == "predicates" for a_ in args for x in C.walk(a_)) and \
+               not any(x.get("k") == "local" and "where" in str(x.get("n")) for a_ in args for x in C.walk(a_)):
+                continue
+            found += 1
+            # allowed guard: `if let Some(w) = generics.where_clause` only
+            stray = []
+            for kind, a_, b_ in st:
+                if kind == "if":
+                    c_ = C.strip_keep_macro(a_)
+                    if isinstance(c_, dict) and c_.get("k") == "let" and any(x.get("k") == "field" and x.get("n") == "where_clause" for x in C.walk(c_.get("init"))):
+                        continue
+                    stray.append("if@%s/%s" % (a_.get("ln") if isinstance(a_, dict) else "?", b_))
+                elif kind == "arm":
+                    if any(x.get("k") == "field" and x.get("n") == "where_clause" for x in C.walk(a_.get("s"))):
+                        continue
+                    stray.append("match-arm")
+            ck.expect(not stray, r_bounds, "ast::LifetimeEnv::extend_generics/where-clause-unconditional", "where predicates -> extend_bounds",
+                      "the `where` clause's lifetime bounds are added only under %s: for some items `where 'a: 'b` is dropped, the method is validated (and the extern fn declared) without the bound" % stray, C.loc(eg, n.get("ln")))
+    if not found:
+        ck.bad(r_bounds, "ast::LifetimeEnv::extend_generics/where-clause-consumed", "extend_generics no longer passes the predicates of `generics.where_clause` to extend_bounds: bounds written as `where 'a: 'b` "
+               "are lost (methods omitting them are accepted, methods spelling them are rejected, the macro's extern fn lacks them)", C.loc(eg))
+
